@@ -935,6 +935,42 @@ example : ∃ (pk' : PubKey (Zn.U 35)) (sig' : Signature (Zn.U 35)),
     ⟨hs, hz, hrc, List.Forall₂.cons ⟨rfl, hra⟩ (List.Forall₂.cons ⟨rfl, hrb⟩ List.Forall₂.nil)⟩,
     ⟨rfl, ha, rfl, rfl⟩⟩
 
+
+/-- **a presentation over several credentials of one modulus is complete in the executable
+group** (e.g. several credentials issued under one credential definition):
+`multi_presentation_complete` transferred along `zn_refines_units` — `proveMulti` and `verify`
+both run with integers modulo `N`, one Fiat–Shamir challenge over all sub-proofs, common
+attributes with one value across the credentials. -/
+theorem multi_presentation_complete_executable (N : ℕ)
+    (H : List ByteArray → ℤ) (hH : ∀ bs, 0 ≤ H bs ∧ H bs < 2 ^ 256)
+    (m : OvfMode) (common : List (String × ℤ)) (V : String → ℤ)
+    (cvs : List (CredIn ℤ × VerCred ℤ)) (cvs' : List (CredIn (Zn.U N) × VerCred (Zn.U N)))
+    (hrel : List.Forall₂ (fun x y => CredInRel (Zn.Rel N) x.1 y.1 ∧ VerCredRel (Zn.Rel N) x.2 y.2)
+      cvs cvs')
+    (hok : ∀ cv ∈ cvs', CredOk (Zn.encU N) common V cv.1 cv.2) (nonce : ByteArray) :
+    ∃ prf, proveMulti H m Drv.fourSq common (cvs.map (·.1)) nonce = .ok prf ∧
+      verify H m (keys common) (cvs.map (·.2)) prf nonce = .ok true := by
+  obtain ⟨prf', h1, h2⟩ := multi_presentation_complete (Zn.encU N) H hH m common V cvs' hok nonce
+  have hc : List.Forall₂ (CredInRel (Zn.Rel N)) (cvs.map (·.1)) (cvs'.map (·.1)) := by
+    clear hok h1 h2
+    induction hrel with
+    | nil => exact List.Forall₂.nil
+    | cons hx _ ih => exact List.Forall₂.cons hx.1 ih
+  have hv : List.Forall₂ (VerCredRel (Zn.Rel N)) (cvs.map (·.2)) (cvs'.map (·.2)) := by
+    clear hok h1 h2 hc
+    induction hrel with
+    | nil => exact List.Forall₂.nil
+    | cons hx _ ih => exact List.Forall₂.cons hx.2 ih
+  have r1 := proveMulti_rel H m Drv.fourSq common hc nonce
+  rw [h1] at r1
+  cases hp : proveMulti H m Drv.fourSq common (cvs.map (·.1)) nonce with
+  | ok prf =>
+    rw [hp] at r1
+    have hprf : ProofRel (Zn.Rel N) prf prf' := r1
+    exact ⟨prf, rfl, by rw [verify_rel H m (keys common) hv hprf nonce]; exact h2⟩
+  | err => rw [hp] at r1; exact absurd r1 (by simp [ORel])
+  | panic => rw [hp] at r1; exact absurd r1 (by simp [ORel])
+
 end ZnRefinement
 
 end CL.C01
